@@ -61,7 +61,7 @@ func TestMain(m *testing.M) {
 		"Timeline: rapid draws a host key (Ed25519 from a seed incl. seeds ground to hit the extreme rotation offsets; occasionally secp256k1/ECDSA/RSA), "+
 			"a start instant = rotation boundary (learnt from a probe manager) + j periods + delta with delta concentrated at {0, +-1ns, +-1ms, +-skew, +-skew+-1ms} plus uniform, "+
 			"and 1..10 steps (move to just before/at/after the next rotation, a fraction of the way, or a multi-period jump; then restart / close / twin / nothing). "+
-			"The real certManager runs on the bubble's virtual clock; a long-running manager A, a restartable manager B and short-lived twins are sampled after every step and at every rotation instant passed. "+
+			"The real certManager runs on the bubble's virtual clock; a long-running manager A, a restartable manager B and short-lived twins are sampled right after their creation (before their timer goroutine ran), after every step and at every rotation instant passed. "+
 			"Oracle per sample: NotBefore+skew <= t <= NotAfter-skew, lifetime <= 14d, key matches, served SHA-256 in SerializedCertHashes and AddrComponent, "+
 			"every advertisement recorded in the current or the previous period verifies the served leaf now (verifyRawCerts on virtual time), every manager serves bytes identical to A. "+
 			"Non-trivial = some sample lies within 1 ms of a rotation boundary (NotBefore+skew / NotAfter-skew) or follows a restart; distinct = (key kind, offset class, start class, step classes, rollovers). "+
@@ -340,6 +340,7 @@ type timelineSpec struct {
 	Start    deltaSpec   `json:"start"`
 	BAtStart bool        `json:"b_at_start"`
 	Steps    []stepSpec  `json:"steps"`
+	Epilogue bool        `json:"epilogue"` // finally run into the next rotation, so that the last "next" hash is put to the test
 }
 
 func drawTimeline(rt *rapid.T) timelineSpec {
@@ -355,6 +356,7 @@ func drawTimeline(rt *rapid.T) timelineSpec {
 	for i := 0; i < n; i++ {
 		s.Steps = append(s.Steps, drawStep(rt))
 	}
+	s.Epilogue = rapid.Bool().Draw(rt, "epilogue")
 	return s
 }
 
@@ -369,12 +371,11 @@ type periodRec struct {
 }
 
 type advert struct {
-	idx   int // period in which it was taken
-	at    time.Time
-	who   string
-	kind  string // "addr" | "serialized"
-	hs    hashSet
-	fresh bool // taken from a manager that has not rolled since it was created
+	idx  int // period in which it was taken
+	at   time.Time
+	who  string
+	kind string // "addr" | "serialized"
+	hs   hashSet
 }
 
 type mgr struct {
@@ -395,16 +396,16 @@ type world struct {
 	adverts map[string]*advert // deduplicated by (period, kind, hash set)
 
 	// evidence
-	rollovers       int
-	restarts        int
-	twins           int
-	samples         int
-	nearBoundary    bool
-	afterRestart    bool
-	exactRot        int
-	confirmMissing  int // informational, see noteConfirm
-	confirmChecked  int
-	labels          map[string]bool
+	rollovers      int
+	restarts       int
+	twins          int
+	samples        int
+	nearBoundary   bool
+	afterRestart   bool
+	exactRot       int
+	confirmMissing int // informational: adverts whose hashes a manager could not all confirm (fresh managers, by design)
+	confirmChecked int
+	labels         map[string]bool
 }
 
 func (w *world) label(l string) { w.labels[l] = true }
@@ -537,8 +538,8 @@ func (w *world) sample(m *mgr, why string) {
 	if !addr.hasSHA256(sum) {
 		rt.Fatalf("%s: AddrComponent() %v lacks the sha2-256 hash %x of the served certificate", at, addr, sum[:6])
 	}
-	w.record(&advert{idx: cur.idx, at: now, who: m.name, kind: "addr", hs: addr, fresh: !m.rolled})
-	w.record(&advert{idx: cur.idx, at: now, who: m.name, kind: "serialized", hs: ser, fresh: !m.rolled})
+	w.record(&advert{idx: cur.idx, at: now, who: m.name, kind: "addr", hs: addr})
+	w.record(&advert{idx: cur.idx, at: now, who: m.name, kind: "serialized", hs: ser})
 
 	// every advertisement of this and of the previous period verifies the served leaf NOW
 	for _, ad := range w.adverts {
@@ -606,7 +607,7 @@ func (w *world) advanceTo(target time.Time, why string) {
 
 func TestTimeline(t *testing.T) {
 	name := t.Name()
-	hx.Check(t, 8000, 400000, 0, func(rt *rapid.T) {
+	hx.Check(t, 16000, 400000, 0, func(rt *rapid.T) {
 		spec := drawTimeline(rt)
 		w := &world{rt: rt, adverts: map[string]*advert{}, labels: map[string]bool{}}
 		var offCls string
@@ -679,6 +680,9 @@ func TestTimeline(t *testing.T) {
 					w.closeMgr(tw)
 				}
 			}
+			if spec.Epilogue {
+				w.advanceTo(w.nextRotation(), "epilogue: next rotation instant")
+			}
 		})
 
 		// evidence
@@ -687,7 +691,7 @@ func TestTimeline(t *testing.T) {
 			cls = append(cls, st.class())
 		}
 		nontrivial := w.nearBoundary || w.afterRestart
-		fp := fmt.Sprintf("%s|%s|%d|%s|%v|%s|r%d", spec.Key.Kind, offCls, spec.J, spec.Start.Class, spec.BAtStart, strings.Join(cls, ","), w.rollovers)
+		fp := fmt.Sprintf("%s|%s|%d|%s|%v|%s|%v|r%d", spec.Key.Kind, offCls, spec.J, spec.Start.Class, spec.BAtStart, strings.Join(cls, ","), spec.Epilogue, w.rollovers)
 		labels := []string{"key=" + spec.Key.Kind, offCls, "start=" + spec.Start.Class, fmt.Sprintf("rollovers=%d", min(w.rollovers, 7)),
 			fmt.Sprintf("restarts=%d", min(w.restarts, 4))}
 		if w.nearBoundary {
